@@ -4,7 +4,7 @@
    inserted or truncated bytes yields SOME sequence of lines, or an unparsable one, which
    is [LOther]).  MD5 is the abstract function H; the two digest hypotheses are premises. *)
 From Trzsz Require Import Base.Bytes Model.Path Model.Fs Model.Names Model.Transfer Model.Protocol Model.FaultTie Proofs.Protocol Proofs.FaultTie Proofs.FaultTieFs Proofs.FaultTieSender.
-From Trzsz Require Model.Resume Model.FaultResume Proofs.Resume Proofs.FaultResume.
+From Trzsz Require Gen.Consts Model.Resume Model.FaultResume Proofs.Resume Proofs.FaultResume.
 From Coq Require Import ZArith.
 
 Section C02.
@@ -264,6 +264,107 @@ Theorem C02_resume_full :
     FaultResume.fo_mrecv o = FaultResume.fo_msend o /\ FaultResume.fo_final o = src.
 Proof. intros B Hh src dst delivered o HB. exact (Proofs.FaultResume.fr_run_identical B Hh HB src dst delivered o). Qed.
 Print Assumptions C02_resume_full.
+
+(* ------------------------------------------------------------------------------------------
+   The whole fault alphabet of the resume exchange (Model/FaultResume.v fr_exchange): the hash-phase
+   SIZE line (protocol 3), every HASH record, every answer - as DELIVERED, i.e. arbitrary well-formed
+   records (digits substituted / inserted / deleted, match flipped, lines lost, doubled, stale) - for EVERY
+   existing destination (absent / empty, proper prefix, identical, longer with the same prefix, longer or
+   shorter and diverging: dst is any list).  [fr_exchange_code] interprets the three places of the code the
+   outcome hinges on, read from the source: the guard on the remembered rest (>= 0: the boundary rest = 0,
+   "the receiver keeps the whole destination", is INSIDE), the unconditional cut at the receiver's offset,
+   and how the hash-phase SIZE line is treated.
+   Digest premises, as in C08: compared prefixes do not collide; the digest in a delivered HASH record is
+   the digest of some prefix of the source (its step may be damaged). *)
+Theorem C02_resume_faults :
+  forall (B : N) (Hh : list byte -> Resume.digest) (src dst : list byte) proto4 (d : FaultResume.fr_deliv) o,
+    Proofs.FaultResume.fx_injective Hh src dst ->
+    Proofs.FaultResume.fx_unforged Hh src (FaultResume.fd_hashes d) ->
+    (* the size the receiver works with: protocol 4, or the SIZE line as sent, or the line is checked *)
+    proto4 = true \/ FaultResume.fd_size d = Z.of_nat (length src) \/ Consts.c02_resume_size_guard = 1%N ->
+    FaultResume.fr_exchange_code B Hh proto4 src dst d = Some o ->
+    FaultResume.fo_mrecv o = FaultResume.fo_msend o /\ FaultResume.fo_final o = src.
+Proof. exact Proofs.FaultResume.fr_exchange_code_identical. Qed.
+Print Assumptions C02_resume_faults.
+
+(* the full statement: no premise on the SIZE line *)
+Definition C02_resume_faults_full : Prop :=
+  forall (B : N) (Hh : list byte -> Resume.digest) (src dst : list byte) proto4 (d : FaultResume.fr_deliv) o,
+    Proofs.FaultResume.fx_injective Hh src dst ->
+    Proofs.FaultResume.fx_unforged Hh src (FaultResume.fd_hashes d) ->
+    FaultResume.fr_exchange_code B Hh proto4 src dst d = Some o ->
+    FaultResume.fo_final o = src.
+
+(* Protocol 3 with the SIZE line used as delivered (Consts.c02_resume_size_guard = 0): source = destination
+   = 1 2 3 (the receiver keeps everything: offset 3); the SIZE line 3 is delivered as 1: the remembered rest
+   1 - 3 is negative, which the code reads as "no resume" and does not compare; the answer (3, match) is
+   delivered as (3, no match): the sender restarts from 0, the receiver appends: 1 2 3 1 2 3, both ends
+   report success.  Two faults, one per direction. *)
+Theorem C02_resume_faults_size_line_refuted :
+  exists (B : N) (Hh : list byte -> Resume.digest) (src dst : list byte) (d : FaultResume.fr_deliv) o,
+    Proofs.FaultResume.fx_injective Hh src dst /\ Proofs.FaultResume.fx_unforged Hh src (FaultResume.fd_hashes d) /\
+    FaultResume.fr_exchange B Hh 2 1 0 false src dst d = Some o /\
+    FaultResume.fo_mrecv o <> FaultResume.fo_msend o /\ FaultResume.fo_final o <> src.
+Proof.
+  exists 64%N, (fun x => x), [1; 2; 3], [1; 2; 3],
+    (FaultResume.mkFrDeliv 1 [Resume.Hash 3 [1; 2; 3]; Resume.Over] [Resume.mkAck 3 false]),
+    (FaultResume.mkFrOut 3 0 [1; 2; 3] [1; 2; 3; 1; 2; 3]).
+  split; [intros k m E; exact E|]. split.
+  - intros step h [E|[E|[]]]; [inversion E; subst; exists 3%nat; reflexivity | discriminate].
+  - split; [vm_compute; reflexivity|]. split; discriminate.
+Qed.
+Print Assumptions C02_resume_faults_size_line_refuted.
+
+(* which of the two holds for the tree under verification is decided by the regenerated constant *)
+Theorem C02_resume_faults_full_status :
+  (Consts.c02_resume_size_guard = 1%N -> C02_resume_faults_full) /\
+  (Consts.c02_resume_size_guard = 0%N -> ~ C02_resume_faults_full).
+Proof.
+  split.
+  - intros G B Hh src dst proto4 d o Inj U R.
+    exact (proj2 (Proofs.FaultResume.fr_exchange_code_identical B Hh src dst proto4 d o Inj U (or_intror (or_intror G)) R)).
+  - intros G F. destruct C02_resume_faults_size_line_refuted as (B & Hh & src & dst & d & o & Inj & U & R & _ & N).
+    apply N. apply (F B Hh src dst false d o Inj U).
+    unfold FaultResume.fr_exchange_code. rewrite Proofs.FaultResume.resume_rest_guard_src_ok, G.
+    pose proof Proofs.FaultResume.resume_truncates_src_ok as T. apply Bool.orb_true_iff in T.
+    destruct T as [T|T]; apply N.eqb_eq in T; rewrite T; [|rewrite Proofs.FaultResume.fr_cut_condition_irrelevant]; exact R.
+Qed.
+Print Assumptions C02_resume_faults_full_status.
+
+(* the cut at the receiver's offset may as well be made only when the existing file is longer than the size
+   the receiver works with: as long as the guard on the rest is in force the outcome is the same for everything
+   that can be delivered (so a source that does it that way is accepted by C02_resume_faults) *)
+Theorem C02_resume_cut_condition_irrelevant :
+  forall (B : N) (Hh : list byte -> Resume.digest) (src dst : list byte) sizeck proto4 (d : FaultResume.fr_deliv),
+    FaultResume.fr_exchange B Hh 2 2 sizeck proto4 src dst d = FaultResume.fr_exchange B Hh 2 1 sizeck proto4 src dst d.
+Proof. exact Proofs.FaultResume.fr_cut_condition_irrelevant. Qed.
+Print Assumptions C02_resume_cut_condition_irrelevant.
+
+(* the boundary rest = 0, and what the two places are there for (explicit variants of the two parameters):
+   source = destination = 1 2 3, the answer (3, match) delivered as (3, no match) *)
+Example C02_resume_rest_zero_boundary :
+  let d := FaultResume.mkFrDeliv 3 [Resume.Hash 3 [1; 2; 3]; Resume.Over] [Resume.mkAck 3 false] in
+  (* the code: refused, for protocol 3 and 4 *)
+  FaultResume.fr_exchange_code 64%N (fun x => x) false [1; 2; 3] [1; 2; 3] d = None /\
+  FaultResume.fr_exchange_code 64%N (fun x => x) true [1; 2; 3] [1; 2; 3] d = None /\
+  (* the guard "> 0" instead of ">= 0": completes with 1 2 3 1 2 3 *)
+  option_map FaultResume.fo_final (FaultResume.fr_exchange 64%N (fun x => x) 1 1 0 true [1; 2; 3] [1; 2; 3] d) = Some [1; 2; 3; 1; 2; 3] /\
+  (* undamaged: completes with 1 2 3, nothing is sent *)
+  option_map (fun o => (FaultResume.fo_sent o, FaultResume.fo_final o))
+    (FaultResume.fr_exchange_code 64%N (fun x => x) true [1; 2; 3] [1; 2; 3] (FaultResume.fr_honest 64%N (fun x => x) [1; 2; 3] [1; 2; 3]))
+    = Some ([], [1; 2; 3]).
+Proof. cbv zeta. repeat split; vm_compute; reflexivity. Qed.
+
+(* ... but only BECAUSE of the guard: source 1 2 3, destination 9 9 9 9 9 (longer, diverging); protocol 3, SIZE
+   line 3 delivered as 7.  The code: the guard refuses (rest 7 against 3 announced).  Without the guard, a cut
+   made only when the destination is longer than the delivered size leaves the stale tail (this was the state
+   of the pinned tree plus such a change), the unconditional cut does not. *)
+Example C02_resume_cut_condition_needs_guard :
+  let d := FaultResume.mkFrDeliv 7 [Resume.Hash 3 [1; 2; 3]; Resume.Over] [Resume.mkAck 3 false] in
+  FaultResume.fr_exchange_code 64%N (fun x => x) false [1; 2; 3] [9; 9; 9; 9; 9] d = None /\
+  option_map FaultResume.fo_final (FaultResume.fr_exchange 64%N (fun x => x) 0 2 0 false [1; 2; 3] [9; 9; 9; 9; 9] d) = Some [1; 2; 3; 9; 9] /\
+  option_map FaultResume.fo_final (FaultResume.fr_exchange 64%N (fun x => x) 0 1 0 false [1; 2; 3] [9; 9; 9; 9; 9] d) = Some [1; 2; 3].
+Proof. cbv zeta. repeat split; vm_compute; reflexivity. Qed.
 
 (* the lost answer of the old witness is now an error (nothing is reported as saved) *)
 Example C02_resume_lost_answer_refused :
